@@ -8,7 +8,7 @@ use super::{
 };
 use crate::utils::collections::*;
 use core::{borrow::Borrow, cell::RefCell};
-use vm_core::{utils::group_vector_elements, Decorator, DecoratorList};
+use vm_core::{Decorator, DecoratorList};
 
 mod instruction;
 
@@ -469,10 +469,11 @@ fn combine_blocks(mut blocks: Vec<CodeBlock>) -> CodeBlock {
 
         let mut grouped_blocks = Vec::new();
         core::mem::swap(&mut blocks, &mut grouped_blocks);
-        let mut grouped_blocks = group_vector_elements::<CodeBlock, 2>(grouped_blocks);
-        grouped_blocks.drain(0..).for_each(|pair| {
-            blocks.push(CodeBlock::new_join(pair));
-        });
+        // pair up the blocks (the number of blocks is even at this point)
+        let mut grouped_blocks = grouped_blocks.into_iter();
+        while let (Some(first), Some(second)) = (grouped_blocks.next(), grouped_blocks.next()) {
+            blocks.push(CodeBlock::new_join([first, second]));
+        }
 
         if let Some(block) = last_block {
             blocks.push(block);
